@@ -196,7 +196,8 @@ Proof. exact AT.state_machine_safety_reconf_partial. Qed.
 Print Assumptions C02_state_machine_safety_reconf_partial.
 
 
-(* what remains unproved: state-machine safety under arbitrary configuration changes without Overlap *)
+(* what remains unproved: state-machine safety for every protocol run under arbitrary configuration changes
+   with neither Overlap nor the per-step checks of steps_ok (see the _checked theorems below) *)
 Definition C02_full : Prop :=
   forall (cf : AM.config) (log0 : list AM.entry), AM.init_ok cf log0 ->
   forall s, AM.reachable cf log0 s ->
@@ -211,6 +212,35 @@ Theorem C02_committed_prefix_global_fixed : forall (cf : AM.config) (log0 : list
     AL.prefix (firstn (AM.commit (AM.nodes s j)) (AM.log (AM.nodes s j))) (AM.gcommit s).
 Proof. exact AT.committed_prefix_global_fixed. Qed.
 Print Assumptions C02_committed_prefix_global_fixed.
+
+
+(* runs checked step by step ("steps_ok": every step additionally satisfies the two decidable conditions the
+   acceptor evaluates — a candidate only wins a term without an elected leader, a leader only commits a prefix
+   comparable with the committed log): arbitrary membership changes, NO Overlap hypothesis. Every accepted
+   implementation trace is such a run (accepted_run_checked, stated in Properties/C03.v). *)
+Theorem C02_log_matching_checked : forall (cf : AM.config) (log0 : list AM.entry), AM.init_ok cf log0 ->
+  forall s, AS.steps_ok (AM.init cf log0) s ->
+  forall (i j k : nat) e e',
+    nth_error (AM.log (AM.nodes s i)) k = Some e -> nth_error (AM.log (AM.nodes s j)) k = Some e' ->
+    AM.eterm e = AM.eterm e' ->
+    firstn (S k) (AM.log (AM.nodes s i)) = firstn (S k) (AM.log (AM.nodes s j)).
+Proof. exact AT.log_matching_checked. Qed.
+Print Assumptions C02_log_matching_checked.
+
+Theorem C02_state_machine_safety_checked : forall (cf : AM.config) (log0 : list AM.entry), AM.init_ok cf log0 ->
+  forall s, AS.steps_ok (AM.init cf log0) s ->
+  forall (i j k : nat) e e',
+    (k < AM.commit (AM.nodes s i))%nat -> (k < AM.commit (AM.nodes s j))%nat ->
+    nth_error (AM.log (AM.nodes s i)) k = Some e -> nth_error (AM.log (AM.nodes s j)) k = Some e' -> e = e'.
+Proof. exact AT.state_machine_safety_checked. Qed.
+Print Assumptions C02_state_machine_safety_checked.
+
+Theorem C02_applied_never_replaced_checked : forall (cf : AM.config) (log0 : list AM.entry), AM.init_ok cf log0 ->
+  forall s, AS.steps_ok (AM.init cf log0) s ->
+  forall s' (i j k : nat), AS.steps_ok s s' -> (k < AM.app s i)%nat -> (k < AM.app s' j)%nat ->
+    nth_error (AM.gcommit s') k = nth_error (AM.gcommit s) k.
+Proof. exact AT.applied_never_replaced_checked. Qed.
+Print Assumptions C02_applied_never_replaced_checked.
 
 (* ---------- non-vacuity ---------- *)
 Example C02_ex_truncate :
